@@ -7,7 +7,8 @@ use serde_json::{json, Value};
 
 const RULE_FILES: [(&str, &str); 3] = [
     ("r1", "@ Alpha\n    p > b\n# voicing\n\n@ Beta\n    t > d / V_V\n\n@ Gamma\n    a > e / _#\n# final raising\n"),
-    ("r2", "@ Delta\n    b > β / V_V\n@ Eps\n    d > ð\n    ð > z / _#\n@ Zeta\n    e > i\n"),
+    // empty lines directly after a group's name and between its sub rules (allowed by the manual; they do not end the group)
+    ("r2", "@ Delta\n\n    b > β / V_V\n@ Eps\n    d > ð\n\n    ð > z / _#\n   \n@ Zeta\n    e > i\n"),
     ("r3", "@ Final Devoicing\n    [+voice] > [-voice] / _#\n@ hap(lo)logy\n    %=1 > * / 1_\n@ STRESS\n    % > [+stress] / #_\n"),
 ];
 const WORD_FILES: [(&str, &str); 2] = [("w1", "pa.ta\nta.pa.ta   # gloss\n\nqa.ta.ta"), ("w2", "ba.da\n# only a comment\na.pa")];
@@ -183,6 +184,44 @@ fn config_case(n: usize, tags: &[Tag], order: &[usize], a: &mut Acc) {
     }
 }
 
+/// every forest of `%` references over four tags, declared in every order, one distinct entry per tag: only the
+/// all-tags run is compared (one process per config), which is where the per-invocation cache is shared between tags
+fn shape_configs() -> Vec<(Vec<Tag>, Vec<usize>)> {
+    let names = ["alpha", "beta", "gamma", "delta"];
+    let entries: [(usize, usize); 4] = [(0, 0), (1, 0), (2, 3), (0, 4)];
+    let mut out = vec![];
+    for code in 0..5usize.pow(4) {
+        let mut q = code; let mut tags = vec![];
+        for t in 0..4 { let c = q % 5; q /= 5; let from = if c == 0 { None } else { Some(c - 1) }; tags.push(Tag { name: names[t].to_string(), from, words: if from.is_none() { vec![0] } else { vec![] }, alias: false, entries: vec![entries[t]] }); }
+        if (0..4).any(|i| tags[i].from == Some(i) || has_cycle(&tags, i)) { continue; }
+        // depth >= 2 somewhere (shallower shapes are covered by the main box)
+        if !(0..4).any(|i| tags[i].from.and_then(|f| tags[f].from).is_some()) { continue; }
+        let mut perm: Vec<usize> = (0..4).collect();
+        loop {
+            out.push((tags.clone(), perm.clone()));
+            let mut i = 3; while i > 0 && perm[i - 1] >= perm[i] { i -= 1; }
+            if i == 0 { break; }
+            let mut j = 3; while perm[j] <= perm[i - 1] { j -= 1; }
+            perm.swap(i - 1, j); perm[i..].reverse();
+        }
+    }
+    out
+}
+fn shape_case(n: usize, tags: &[Tag], order: &[usize], a: &mut Acc) {
+    let cfg = config_text(tags, order);
+    let sb = Sandbox::new("c20p", n);
+    setup(&sb, tags, order);
+    a.evals += 1;
+    let o = run_cli(&sb.dir, &["seq", ".", "-o", "-y"]); a.procs += 1;
+    for (i, t) in tags.iter().enumerate() {
+        let Some(w) = reference(tags, i) else { continue };
+        match out_file(&sb, &t.name) {
+            Some((_, g)) if nonblank(&g) == w.iter().filter(|x| !x.is_empty()).cloned().collect::<Vec<_>>() => a.ok += 1,
+            got => { a.viols.push(Viol { key: format!("shape|{}|{}", t.name, cfg.replace('\n', " ").split_whitespace().collect::<Vec<_>>().join(" ")), desc: format!("tag `{}` (all tags run together): out/ has {:?}, the composition of its stages gives {:?} (exit {:?}); config: {}", t.name, got, w, o.code, cfg), case: json!({"config": cfg, "shape": true}) }); return; }
+        }
+    }
+}
+
 fn all_configs(max_tags: usize, max_entries: usize) -> Vec<(Vec<Tag>, Vec<usize>)> {
     let names = ["alpha", "beta", "gamma", "delta"];
     // per-tag choices: from (none or any tag), extra words (0/1), entries
@@ -219,12 +258,18 @@ pub fn run() -> i32 {
     if !cli_available() { r.machinery_errors.push(format!("{} not built", CLI)); return r.finish(); }
     let thorough = r.thorough();
     let (mt, me) = if thorough { (3, 2) } else { (2, 1) };
-    r.rule = format!("every config with 1..{} tags: `%` reference of each tag in {{none}} + all tags (so every chain, fork, forward reference, self-loop and longer cycle occurs), word lists on root tags (one or two files), extra word file on pipeline tags or not, {} rule-file entries per tag from 3 rule files of 3 named groups each with filter in {{none, !{{a}}, !{{b,a}}, ~{{c}}, ~{{c,a}}}} spelled with varying case, deromaniser-only alias on some root tags, tags declared in forward and reverse order; the real `asca seq -o -y` is run in a fresh directory and the single file under out/<tag>/ is compared (non-blank lines) with asca::run composed stage by stage by a reference that reads the same files with the harness's own readers; each tag is also run alone in a fresh copy (cold cache) and must write the same file, and with `-i` one numbered file per entry equal to the reference after that entry; `conv tag -r` must export the concatenated rule history, and running it through the library gives the same words when no words were added mid-pipeline; cyclic configs must be rejected without output within 20 s. Non-trivial = comparisons that held on valid configs.", mt, me);
+    r.rule = format!("every config with 1..{} tags: `%` reference of each tag in {{none}} + all tags (so every chain, fork, forward reference, self-loop and longer cycle occurs), word lists on root tags (one or two files), extra word file on pipeline tags or not, {} rule-file entries per tag from 3 rule files of 3 named groups each with filter in {{none, !{{a}}, !{{b,a}}, ~{{c}}, ~{{c,a}}}} spelled with varying case, deromaniser-only alias on some root tags, tags declared in forward and reverse order; the real `asca seq -o -y` is run in a fresh directory and the single file under out/<tag>/ is compared (non-blank lines) with asca::run composed stage by stage by a reference that reads the same files with the harness's own readers; each tag is also run alone in a fresh copy (cold cache) and must write the same file, and with `-i` one numbered file per entry equal to the reference after that entry; `conv tag -r` must export the concatenated rule history, and running it through the library gives the same words when no words were added mid-pipeline; cyclic configs must be rejected without output within 20 s; plus every forest of depth >= 2 over four tags in all 24 declaration orders (all tags in one invocation, so the cache is shared); rule files contain empty lines after a group name and between sub rules. Non-trivial = comparisons that held on valid configs.", mt, me);
     r.assumptions.push("products larger than 6000 configs per tag count are walked with a fixed stride over the mixed-radix index (every choice of every dimension still occurs); the quick box (<= 2 tags, 1 entry) is complete".into());
     let configs = all_configs(mt, me);
     let mut t = Acc::default();
     par_fold(configs.len(), 2, Acc::default, |i, a| config_case(i, &configs[i].0, &configs[i].1, a), |a| t.merge(a));
-    cleanup("c20"); cleanup("c20s"); cleanup("c20i");
+    let shapes = shape_configs();
+    let mut ts = Acc::default();
+    par_fold(shapes.len(), 4, Acc::default, |i, a| shape_case(i, &shapes[i].0, &shapes[i].1, a), |a| ts.merge(a));
+    r.boxes.push(json!({"box": "four-tag forests of depth >= 2 x all 24 declaration orders (all tags run together)", "configs": shapes.len(), "cli_processes": ts.procs, "tag_outputs_held": ts.ok}));
+    r.guard(ts.ok > 1000, "shape box: more than 1000 tag outputs compared");
+    t.merge(ts);
+    cleanup("c20"); cleanup("c20s"); cleanup("c20i"); cleanup("c20p");
     let cyc = configs.iter().filter(|c| (0..c.0.len()).any(|i| has_cycle(&c.0, i))).count();
     r.boxes.push(json!({"box": "configs", "configs": configs.len(), "cyclic_configs": cyc, "comparisons": t.evals, "cli_processes": t.procs, "held": t.ok, "cyclic_rejected": t.rejected_ok}));
     r.guard(t.ok > 500 && t.rejected_ok > 50, "more than 500 comparisons held on valid configs and more than 50 cyclic configs were rejected");
@@ -237,6 +282,14 @@ pub fn run() -> i32 {
 
 pub fn replay(case: &Value) -> Result<String, String> {
     let cfg = case["config"].as_str().ok_or("config")?;
+    if case["shape"].as_bool() == Some(true) {
+        let shapes = shape_configs();
+        let (i, c) = shapes.iter().enumerate().find(|(_, c)| config_text(&c.0, &c.1) == cfg).ok_or("config not in the shape box")?;
+        let mut a = Acc::default();
+        shape_case(i, &c.0, &c.1, &mut a);
+        cleanup("c20p");
+        return match a.viols.first() { Some(v) => Err(v.desc.clone()), None => Ok("every tag equals the composition of its stages".into()) };
+    }
     for (mt, me) in [(2, 1), (3, 2)] {
         let configs = all_configs(mt, me);
         if let Some((i, c)) = configs.iter().enumerate().find(|(_, c)| config_text(&c.0, &c.1) == cfg) {
